@@ -43,7 +43,15 @@ def gen(g, count):
             log = [(d, ents, ns + [hard_note(g) for _ in range(r.randint(0, 2))]) for d, ents, ns in log]
             hard = True
         src = g.render_log(log, layout=layout, varied=True)
-        gflags = {'dateFormat': layout} if layout != '2006/01/02' or r.random() < 0.2 else {}
+        # the date format reaches the program as a flag, through the environment or from the configuration file
+        source = r.choice(['flag', 'flag', 'env', 'cfg']) if layout != '2006/01/02' else r.choice(['flag', 'none', 'none', 'none', 'none'])
+        gflags = {'dateFormat': layout} if source == 'flag' else {}
+        env, cfg = {}, None
+        if source == 'env':
+            env = {'dateFormat': layout}
+        elif source == 'cfg':
+            cfg = {'where': 'flag', 'path': 'my.cfg', 'exists': True, 'entries': {'DateFormat': layout}}
+            gflags['config'] = 'my.cfg'
         sflags = {}
         days = sorted({d for d, _, _ in log})
         if days and r.random() < 0.3:
@@ -51,8 +59,8 @@ def gen(g, count):
         if days and r.random() < 0.3:
             sflags['end'] = fmt_date_layout(r.choice(days), layout)
         gflags['today'] = fmt_date_layout(__import__('datetime').date(2021, 1, 28), layout)
-        c = app(['print'], {b'log.yaml': src, b'food.yaml': b''}, g=gflags, s=sflags, kind='print')
-        c.meta.update({'log': log, 'layout': layout, 'stage': 1, 'hard': hard})
+        c = app(['print'], {b'log.yaml': src, b'food.yaml': b''}, g=gflags, s=sflags, kind='print', env=env, cfg=cfg, disk=(cfg is not None))
+        c.meta.update({'log': log, 'layout': layout, 'stage': 1, 'hard': hard, 'format_source': source})
         cases.append(c)
     return cases
 
@@ -147,10 +155,10 @@ def stage2_of(stage1, impl1):
         if i.get('status') != 'ok':
             continue
         files = {b'log.yaml': unhx(i['out']), b'food.yaml': b''}
-        g = {k: v for k, v in c.g.items() if k in ('dateFormat', 'today')}
-        a = app(['print'], files, g=g, kind='print(print)')
+        g = {k: v for k, v in c.g.items() if k in ('dateFormat', 'today', 'config')}
+        a = app(['print'], files, g=g, kind='print(print)', env=c.env, cfg=c.cfg, disk=c.disk)
         a.meta['parent'] = c
-        b_ = app(['csv', 'log'], files, g=g, kind='csv log(print)')
+        b_ = app(['csv', 'log'], files, g=g, kind='csv log(print)', env=c.env, cfg=c.cfg, disk=c.disk)
         b_.meta['parent'] = c
         out += [a, b_]
     return out
